@@ -237,3 +237,267 @@ def check_unit_separator_typestate(R, rule):
     R.check(colon and not badc, rule, "colon-in-header",
             "`:` before a letter is a header separator in a compound header and an error inside a common command (%d rows)" % len(colon),
             "`:` in a header is misjudged: %s" % sorted({"%s -> %s" % (r.key(), r.result) for r in badc})[:3])
+
+
+# ---- reference lexer for the self-delimiting data elements (IEEE 488.2 7.7.4 - 7.7.7) -----------------------------------
+
+def _after(data, pos):
+    """white space after a data element, then a separator / terminator / end: -> consumed or None"""
+    # the library's white space after a datum includes a trailing NL (the terminator is then not reported as a separate
+    # element; see DESIGN.md, observation O1): positions are compared after that white space
+    while pos < len(data) and data[pos] in (9, 10, 12, 13, 32):
+        pos += 1
+    if pos < len(data) and data[pos] not in b",;\n":
+        return None
+    return pos
+
+
+def ref_element(data, in_header=False):
+    """-> ("Ok", kind, payload, consumed) | ("Err",) for one program element at the start of `data`"""
+    c = data[0:1]
+    if in_header or (c and c.isalpha()):
+        # program mnemonic (header) / character data: letter (or `*` letter in a header), then letters, digits, `_`; <= 12
+        i = 0
+        if in_header and c == b"*":
+            i = 1
+        if not data[i:i + 1].isalpha():
+            return ("Err",)
+        j = i
+        while j < len(data) and data[j] < 128 and (chr(data[j]).isalnum() or data[j] == 95):
+            j += 1
+        if j > 12:
+            return ("Err",)
+        if in_header:
+            return ("Ok", "ProgramMnemonic", data[:j], j)
+        end = _after(data, j)
+        return ("Ok", "CharacterProgramData", data[:j], end) if end is not None else ("Err",)
+    if c and (c.isdigit() or c in b"+-."):
+        # decimal numeric (the crate's documented subset: no white space inside the number), optional suffix
+        i = 0
+        if data[i:i + 1] in (b"+", b"-"):
+            i += 1
+        j = i
+        while j < len(data) and 48 <= data[j] <= 57:
+            j += 1
+        lead = j > i
+        i = j
+        frac = False
+        if data[i:i + 1] == b".":
+            i += 1
+            j = i
+            while j < len(data) and 48 <= data[j] <= 57:
+                j += 1
+            frac = j > i
+            i = j
+        if not (lead or frac):
+            return ("Err",)
+        if data[i:i + 1] in (b"E", b"e"):
+            i += 1
+            if data[i:i + 1] in (b"+", b"-"):
+                i += 1
+            j = i
+            while j < len(data) and 48 <= data[j] <= 57:
+                j += 1
+            if j == i:
+                return ("Err",)
+            i = j
+        num = data[:i]
+        k = i
+        while k < len(data) and data[k] in (9, 10, 12, 13, 32):
+            k += 1
+        if k < len(data) and (chr(data[k]).isalpha() or data[k] == ord("/")):
+            s0 = k
+            while k < len(data) and (chr(data[k]).isalnum() and data[k] < 128 or data[k] in b"-/."):
+                k += 1
+            if k - s0 > 12:
+                return ("Err",)
+            end = _after(data, k)
+            return ("Ok", "DecimalNumericSuffixProgramData", (num, data[s0:k]), end) if end is not None else ("Err",)
+        end = _after(data, i)
+        return ("Ok", "DecimalNumericProgramData", num, end) if end is not None else ("Err",)
+    if c in (b'"', b"'"):
+        q = data[0]
+        i = 1
+        while True:
+            if i >= len(data):
+                return ("Err",)
+            if data[i] == q:
+                if i + 1 < len(data) and data[i + 1] == q:
+                    i += 2
+                    continue
+                break
+            if data[i] >= 128:
+                return ("Err",)
+            i += 1
+        end = _after(data, i + 1)
+        return ("Ok", "StringProgramData", data[1:i], end) if end is not None else ("Err",)
+    if c == b"(":
+        i = 1
+        while i < len(data) and data[i] != ord(")"):
+            if data[i] in b"\"';(" or data[i] >= 128:
+                return ("Err",)
+            i += 1
+        if i >= len(data):
+            return ("Err",)
+        end = _after(data, i + 1)
+        return ("Ok", "ExpressionProgramData", data[1:i], end) if end is not None else ("Err",)
+    if c == b"#" and len(data) > 1 and 48 <= data[1] <= 57:
+        d = data[1] - 48
+        if d == 0:
+            rest = data[2:]
+            if not rest or rest[-1] != 10:
+                return ("Err",)
+            return ("Ok", "ArbitraryBlockData", rest[:-1], len(data))
+        digs = data[2:2 + d]
+        if len(digs) != d or not digs.isdigit():
+            return ("Err",)
+        n = int(digs)
+        pay = data[2 + d:2 + d + n]
+        if len(pay) != n:
+            return ("Err",)
+        end = _after(data, 2 + d + n)
+        return ("Ok", "ArbitraryBlockData", pay, end) if end is not None else ("Err",)
+    if c == b"#" and len(data) > 1:
+        radix = {72: 16, 104: 16, 81: 8, 113: 8, 66: 2, 98: 2}.get(data[1])
+        if radix is None:
+            return ("Err",)
+        i = 2
+        digits = b"0123456789abcdef"[:radix]
+        while i < len(data) and bytes([data[i]]).lower() in [bytes([x]) for x in digits]:
+            i += 1
+        if i == 2:
+            return ("Err",)
+        v = int(data[2:i], radix)
+        if v >= 2 ** 64:
+            return ("Err",)
+        end = _after(data, i)
+        return ("Ok", "NonDecimalNumericProgramData", v, end) if end is not None else ("Err",)
+    return ("Err",)
+
+
+MNEMONIC_INPUTS = [b"A", b"AB:", b"ABC?", b"ABC 1", b"A1B2", b"A_B", b"ABCDEFGHIJK", b"ABCDEFGHIJKL", b"ABCDEFGHIJKL:X", b"ABCDEFGHIJKLM", b"ABCDEFGHIJK12", b"SENSE12345678", b"*IDN?", b"*A", b"*ABCDEFGHIJK", b"*ABCDEFGHIJKL", b"*ABCDEFGHIJK?", b"TEMPERATURE2?", b"abcdefghijkl;"]
+CHARDATA_INPUTS = [b"MAX", b"max,1", b"ABCDEFGHIJKL", b"ABCDEFGHIJKLM", b"ABCDEFGHIJKL ,", b"A_1;", b"ON x", b"ON\n"]
+
+ELEMENT_INPUTS = [
+    b'"abc"', b"'abc'", b'""', b"''", b'"a""b"', b"'a''b'", b'"it\'s"', b"'say \"hi\"'", b'"""', b'""""', b'"abc', b"'abc", b'"abc" ,1', b'"abc";', b'"abc"\n', b'"abc"x', b'"abc" x', b'"a\xffb"', b'"a,b;c"', b'"a"" "',
+    b"(@1,2)", b"(1:3)", b"()", b"(abc", b"(a(b)", b'(a"b)', b"(a;b)", b"(a) ,", b"(a)x", b"(a\xe9)", b"(a'b)",
+    b"#10", b"#10,5", b"#10;", b"#10 ,5", b"#10\n", b"#10x", b"#13abc", b"#13abc,", b"#13abc ;", b"#13ab", b"#13abcd", b"#210abcdefghij", b"#210abcdefghi", b"#1", b"#2", b"#21", b"#1x", b"#14\xff;,\n", b"#14\xff;,\nX", b"#0abc\n", b"#0abc", b"#0", b"#0\n", b"#0a\nb\n", b"#3001x", b"#3001",
+    b"1", b"+1", b"-1", b"1.5", b".5", b"1.", b"-.5", b"+0.0", b"1e5", b"1E5", b"1e+5", b"1E-5", b"1.5e10", b".5E2", b"1e40000", b"1e-40000", b"0e999999", b"-2.5E+99999",
+    b"1" + b"0" * 40, b"0." + b"0" * 40 + b"1", b"1e", b"1e+", b".", b"-", b"+.", b"-e5", b"1,2", b"1 ,2", b"1;", b"1\n", b"1 2", b"1 V", b"1V", b"1 mV", b"1.5e3 KHZ", b"1 V/S", b"1 V.S-1",
+    b"1 ABCDEFGHIJKL", b"1 ABCDEFGHIJKLM", b"1V 2", b"1 V;", b"1 V ,2", b"1.5.5", b"1..", b"12345678901234567890123",
+    b"#HFF", b"#hff", b"#Q17", b"#q17", b"#B101", b"#b101", b"#H", b"#HG", b"#Q8", b"#B2", b"#X10", b"#HFF ,", b"#HFFG", b"#HFFFFFFFFFFFFFFFF", b"#H10000000000000000", b"#B1 ;", b"#Q7x",
+]
+
+
+
+
+SEPARATOR_INPUTS = [
+    b",1", b", 1", b",.5", b", .5e1", b",-1", b",+2", b",#HFF", b",#13abc", b',"a"', b",'a'", b",(@1)", b",MAX", b",  \tMIN",
+    b",,1", b",;", b", ,1", b",  ;*X",
+]   # `,` before NL / end of input is not tabulated: the white-space skip takes the NL with it (DESIGN.md, observation O1)
+
+
+def ref_separator(data):
+    """`,` after a data element: a program data separator when another data element follows (white space allowed in
+    between; IEEE 488.2 7.4.2.2), an error when the next thing is another separator or the end of the unit"""
+    pos = 1
+    while pos < len(data) and data[pos] in (9, 11, 12, 13, 32):
+        pos += 1
+    if pos < len(data) and data[pos] in b",;\n":
+        return ("Err",)
+    return ("Ok", "ProgramDataSeparator", None, pos)
+
+
+def element_table(kinds):
+    """Tokenizer::next interpreted (all tokenizer functions in place, lexical-core's integer parsers by contract) on
+    complete representative inputs; returns {kind: [mismatch descriptions]}, number of inputs evaluated, span"""
+    from . import convert as CV
+    key = ("elements",)
+    if key not in _C:
+        P = D.prog()
+        u = P.unit("scpi")
+
+        def m_parse_int(eng, st, fr, t, name, rname, args):
+            b_ = M._bytes_of(eng, st, args[0])
+            if b_ is None:
+                return NotImplemented
+            txt = bytes(b_)
+            g = eng.concrete_gargs(st, t["callee"])
+            rng = fdai._INT_RANGE.get(g[0] if g else "usize") or (0, 2 ** 64 - 1)
+            body_txt = txt[1:] if txt[:1] in (b"+", b"-") and rng[0] < 0 else txt
+            if body_txt.isdigit() and rng[0] <= int(txt) <= rng[1]:
+                return fdai.mk_ok(K(int(txt)))
+            return fdai.mk_err(fdai.SymV("lexical-error", "lexical-error"))
+
+        def m_parse_partial_radix(eng, st, fr, t, name, rname, args):
+            b_ = M._bytes_of(eng, st, args[0])
+            g = eng.concrete_gargs(st, t["callee"])
+            if b_ is None or len(g) < 2 or not str(g[1]).isdigit():
+                return NotImplemented
+            radix = (int(g[1]) >> 104) & 0xFF
+            digits = "0123456789abcdefghijklmnopqrstuvwxyz"[:radix]
+            txt = bytes(b_)
+            i = 0
+            while i < len(txt) and chr(txt[i]).lower() in digits:
+                i += 1
+            v = int(txt[:i], radix) if i else 0
+            adt, tab = CV.lexical_error_table(eng)
+            if v >= 2 ** 64 and tab:
+                d = [k for k, n_ in tab.items() if n_ == "Overflow"]
+                return fdai.mk_err(EnumV(adt, "Overflow", d[0] if d else 0, {0: K(i)}))
+            return fdai.mk_ok(AggV("tuple", {0: K(v), 1: K(i)}))
+
+        models8 = dict(M.FOLD_MODELS)
+        models8["lexical_core::parse"] = m_parse_int
+        models8["lexical_core::parse_partial_with_options"] = m_parse_partial_radix
+        eng8 = fdai.Engine(P, u, inline=lambda n, r: r.startswith("scpi::parser::tokenizer::") or ("tokenizer::Tokenizer" in r and r.startswith("<")), models=models8, loop_limit=120, max_paths=32)
+        nb = tokenizer_next_body(u)
+        tk_fields = tokenizer_fields(u)
+        results = {}
+        for kind, inputs, in_header in (("mnemonic", MNEMONIC_INPUTS, True), ("chardata", CHARDATA_INPUTS, False), ("data", ELEMENT_INPUTS, False), ("separator", SEPARATOR_INPUTS, False)):
+            for data in inputs:
+                st = fdai.State()
+                st.extra["bytes"] = list(data)
+                vals = {"chars": M.mk_bytes_iter(0), "in_header": K(in_header), "in_common": K(False), "after_data": K(kind == "separator")}
+                cell = Cell(AggV(TOKENIZER, {i: vals.get(nm, TOP) for i, nm in enumerate(tk_fields)}), "tokenizer")
+                st.extra["tk"] = cell
+                k2 = kind if kind != "data" else ("string" if data[:1] in (b'"', b"'") else "expression" if data[:1] == b"(" else "decimal" if data[:1] != b"#" else "block" if data[1:2].isdigit() else "non-decimal")
+                exp = ref_element(data, in_header) if kind != "separator" else ref_separator(data)
+                try:
+                    res = eng8.run(nb, [RefV(cell, (), True)], st)
+                except (fdai.TooManyPaths, RecursionError) as e:
+                    results.setdefault(k2, []).append((data, "undecided (%s)" % type(e).__name__, exp))
+                    continue
+                got = None
+                if len(res) == 1 and res[0].outcome == "return" and isinstance(res[0].retval, EnumV) and res[0].retval.name == "Some":
+                    x = res[0].retval.fields.get(0)
+                    if isinstance(x, EnumV) and x.name == "Err":
+                        got = ("Err",)
+                    elif isinstance(x, EnumV) and x.name == "Ok" and isinstance(x.fields.get(0), EnumV):
+                        tok = x.fields[0]
+                        pay = tok.fields.get(0)
+                        pv = pay.v if isinstance(pay, K) else M._bytes_of(eng8, res[0], pay)
+                        if 1 in tok.fields:
+                            p1 = M._bytes_of(eng8, res[0], tok.fields[1])
+                            pv = (bytes(pv) if pv is not None else None, bytes(p1) if p1 is not None else None)
+                        tkc = res[0].extra.get("tk")
+                        ch = tkc.v.fields.get(tk_fields.index("chars")) if tkc is not None and isinstance(tkc.v, AggV) else None
+                        pos = ch.fields[0].v if isinstance(ch, AggV) and isinstance(ch.fields.get(0), K) else None
+                        got = ("Ok", tok.name, bytes(pv) if isinstance(pv, (bytes, bytearray, list)) else pv, pos)
+                elif len(res) == 1 and res[0].outcome in ("panic", "diverge"):
+                    got = ("panic",)
+                results.setdefault(k2, []).append((data, got if got else [(r.outcome, r.retval) for r in res][:2], exp))
+        _C[key] = (results, nb.span)
+    results, span = _C[key]
+    return {k: results.get(k, []) for k in kinds}, span
+
+
+def check_elements(R, rule, kinds):
+    table, span = element_table(kinds)
+    n = 0
+    for kind in kinds:
+        rows = table.get(kind, [])
+        n += len(rows)
+        bad = ["%r: lexed as %s, IEEE 488.2 section 7 gives %s" % (d, g, e) for d, g, e in rows if g != e]
+        R.check(rows and not bad, rule, "element:" + kind, "kind, payload and consumed bytes equal the reference lexer on every representative input (%d)" % len(rows), "; ".join(bad[:4]) or "no inputs evaluated", where=span)
+    R.count("element_inputs", n)
